@@ -67,7 +67,10 @@ def model_spec(which):
 
 
 def simulate(which):
-    m = sim.Model(model_spec(which))
+    spec = model_spec(which)
+    # element names are free text: dots and spaces included
+    names = None if which == 0 else [f'stage {which}.{i}' if i else 'motor v1.0' for i in range(len(spec['elements']))]
+    m = sim.Model(spec, names)
     m.run([0.125, 'sec'], [1.0, 'sec'], duty=[1, 0.6, 0.8, 1, 0.3, None, 0.9, 1, 1])
     return m
 
@@ -275,6 +278,8 @@ def run_shard(shard, tier):
         # history: snapshot, continue the simulation, snapshot / export again (old and new instants)
         # (the continuation is requested in ms: the recorded instants then carry two different units)
         m.run([125.0, 'ms'], [500.0, 'ms'], duty=[1, 0.6, 0.8, 1, 0.3, None, 0.9, 1, 1, 0.5, -0.4, 1, 1])
+        # ... and once more with a finer step: the recorded grid is no longer uniform
+        m.run([0.03125, 'sec'], [0.1875, 'sec'], duty=[1, 0.6, 0.8, 1, 0.3, None, 0.9, 1, 1, 0.5, -0.4, 1, 1, 0.7, 1, 0.2, 1, 1, 1])
         tmp = tempfile.mkdtemp(prefix='gmc_c18_')
         try:
             for t in target_times(m)[::3]:
